@@ -536,6 +536,14 @@ fn find_mapped_expr_id_from_token(
     token: &MySyntaxToken,
     index: &HirResultsIndex,
 ) -> Option<hir::ExprId> {
+    // A shorthand field `Point { x, y }` reads the variable x: the field node is the
+    // expression, although its kind is not an expression kind.
+    if token.kind() == MySyntaxKind::Ident
+        && let Some(parent) = token.parent()
+        && let Some(id) = index.expr_id(&MySyntaxNodePtr::new(&parent))
+    {
+        return Some(id);
+    }
     let mut current = token.parent();
     while let Some(node) = current {
         if cst::nodes::Expr::can_cast(node.kind()) {
@@ -553,6 +561,13 @@ fn find_mapped_pat_id_from_token(
     token: &MySyntaxToken,
     index: &HirResultsIndex,
 ) -> Option<hir::PatId> {
+    // Likewise `let Point { x, y } = p` binds x through a field node that is not a pattern kind.
+    if token.kind() == MySyntaxKind::Ident
+        && let Some(parent) = token.parent()
+        && let Some(id) = index.pat_id(&MySyntaxNodePtr::new(&parent))
+    {
+        return Some(id);
+    }
     let mut current = token.parent();
     while let Some(node) = current {
         if cst::nodes::Pattern::can_cast(node.kind()) {
